@@ -162,6 +162,8 @@ static int cb_common(htp_tx_t *tx, int kind, const uint8_t *data, size_t len, in
         if (kind == CB_REQ_BODY && data) { if (r->body[0].n < (4u << 20)) hb_put(&r->body[0], data, len); }
         else if (kind == CB_RES_BODY && data) { if (r->body[1].n < (4u << 20)) hb_put(&r->body[1], data, len); }
         else if (kind == CB_REQ_FILE) { r->filelen += (int64_t) len; if (data && r->files.n < (1u << 20)) hb_put(&r->files, data, len); }
+        else if ((kind == CB_REQ_HEADER_DATA || kind == CB_REQ_TRAILER_DATA) && data) { if (r->raw[0].n < (1u << 20)) hb_put(&r->raw[0], data, len); }
+        else if ((kind == CB_RES_HEADER_DATA || kind == CB_RES_TRAILER_DATA) && data) { if (r->raw[1].n < (1u << 20)) hb_put(&r->raw[1], data, len); }
         if (kind == CB_TX_COMPLETE) { hb_reset(&r->dumpz); hx_dump_tx(&r->dumpz, tx, 0); }
     }
 
